@@ -442,6 +442,37 @@ def ellipse_fraction(P, rep, rule="EXPR.ellipse"):
     else:
         rep.violation(rule, "fraction_from_ellipse_center returns %s" % val, F.loc, F.qn, str(val)[:160], "expected the rotated ellipse equation", key=rule,
                       witness="eccentric, rotated plume cross section")
+    # the degenerate ellipse (an axis of length zero) is a single point or a line segment: every other return value has to say
+    # "outside" (a fraction above 1) for a point off the centre; the callers test `fraction <= 1`
+    for r in rets[:-1]:
+        v = sc(r["c"][0])
+        txt = norm.render(P, v)
+        num = None
+        if v.get("k") == "CXXBoolLiteralExpr":
+            num = 1.0 if v.get("v") else 0.0
+        elif v.get("k") in ("IntegerLiteral", "FloatingLiteral"):
+            num = float(v.get("v"))
+        elif "infinity" in txt or "max()" in txt:
+            num = float("inf")
+        g = astq.enclosing(F, r, ("IfStmt",))
+        where = norm.render(P, g["c"][0])[:80] if g is not None else "unconditionally"
+        if num is None:
+            # a value that depends on the point (e.g. 0 at the centre, infinity elsewhere): accepted if it is not a constant <= 1
+            try:
+                vv = sym(v)
+                const = not (vv.free_symbols & {px, py})
+            except Exception:
+                const = False
+            if const:
+                rep.unknown(rule, "fraction_from_ellipse_center returns %s when %s" % (txt[:40], where))
+            else:
+                rep.ok(rule, "degenerate ellipse (%s): the value depends on the point (%s)" % (where, txt[:50]), F.nloc(r), F.qn)
+        elif num > 1.0:
+            rep.ok(rule, "degenerate ellipse (%s): the point is reported outside (%s)" % (where, txt[:30]), F.nloc(r), F.qn)
+        else:
+            rep.violation(rule, "fraction_from_ellipse_center returns %s (= %g) when %s" % (txt[:30], num, where), F.nloc(r), F.qn, norm.render(P, r)[:120],
+                          "an ellipse with an axis of length zero contains every point: the callers test `fraction <= 1`", key=rule + "|degenerate",
+                          witness="a plume whose deepest cross section has semi-major axis 0 (or eccentricity 1): every point below that depth is inside the plume")
 
 
 def plume_sections(P, rep, rule="PLUME.sections"):
